@@ -292,8 +292,8 @@ namespace
             runtime.__logmsg(err::ReturningEmptyArray(runtime.context_active().current_frame().diag_info_from_position()));
             return std::make_shared<d_array>();
         }
-        if (nav->size() == 0)
-        {
+        if (nav.begin() == nav.end())
+        { // no entries (`delete` markers are none)
             return std::make_shared<d_array>();
         }
         else
@@ -371,8 +371,8 @@ namespace
                 runtime.__logmsg(err::ReturningEmptyArray(runtime.context_active().current_frame().diag_info_from_position()));
                 return std::make_shared<d_array>();
             }
-            if (nav->size() == 0)
-            {
+            if (nav.begin() == nav.end())
+            { // no entries (`delete` markers are none)
                 return std::make_shared<d_array>();
             }
             else
@@ -383,7 +383,7 @@ namespace
                 if (res.has_value())
                 {
                     frame f(runtime.default_value_scope(), res.value(), std::make_shared<behavior_configproperties_exit>(nav));
-                    f["_x"] = nav->operator[](0);
+                    f["_x"] = { *(nav.begin()) };
                     runtime.context_active().push_frame(f);
                 }
             }
